@@ -111,9 +111,23 @@ def mode_instances(I, repo, suffix='', closed_only=False, only=None):
     if closed_only:
         return out
     # models that call into other objects: identities only (no derivative through opaque calls)
-    rxn = opaque_obj(I, 'rxn', {k: ('T', 'units', 'rev', 'state', 'P') for k in
-                                ('get_delta_E', 'get_delta_H', 'get_H_state', 'get_E_state', 'get_UoRT_state',
-                                 'get_HoRT_state', 'get_SoR_state')})
+    # a reaction as far as the models that lean on one go.  Its dimensionless state getters are, as in
+    # pmutt.reaction.Reaction, spellings of the generic one: get_<X>_state(state, ...) IS
+    # get_state_quantity(state=state, method_name='get_<X>', ...) - whichever the model asks, it is the same value
+    def state_getter(mname):
+        def f(I_, obj, args, kwargs):
+            if args:
+                kwargs = dict(kwargs, state=args[0])
+                if len(args) > 1:
+                    raise Unsupported('reaction.%s_state with %d positional arguments' % (mname, len(args)))
+            return obj.opaque_methods['get_state_quantity'](I_, obj, [], dict(kwargs, method_name=mname))
+        return f
+    state_qs = ('q', 'CvoR', 'CpoR', 'UoRT', 'EoRT', 'HoRT', 'SoR', 'FoRT', 'GoRT')
+    rxn_ps = ('T', 'units', 'rev', 'state', 'P')
+    rxn = opaque_obj(I, 'rxn', dict({k: rxn_ps for k in ('get_delta_E', 'get_delta_H', 'get_H_state', 'get_E_state')},
+                                    get_state_quantity=rxn_ps + ('method_name',),
+                                    **{'get_%s_state' % q_: rxn_ps for q_ in state_qs}),
+                     rewrite={'get_%s_state' % q_: state_getter('get_' + q_) for q_ in state_qs})
     sp1 = opaque_obj(I, 'surf', {'get_E': ('T', 'units', 'P'), 'get_H': ('T', 'units', 'P')})
     sp2 = opaque_obj(I, 'gas', {'get_E': ('T', 'units', 'P'), 'get_H': ('T', 'units', 'P')})
     rxn.isa.add('Reaction')
@@ -131,6 +145,9 @@ def mode_instances(I, repo, suffix='', closed_only=False, only=None):
     cov = I.construct(repo.cls('pmutt.mixture.cov.PiecewiseCovEffect'), [],
                       {'name_i': 'A', 'name_j': 'B', 'intervals': ListV([C(0), D.sym('b1')]),
                        'slopes': ListV([D.sym('k0'), D.sym('k1')])}, name='self')
+    if isinstance(cov, Raised):
+        raise Unsupported('PiecewiseCovEffect(name_i, name_j, intervals, slopes) raises %s for generic parameters'
+                          % cov.exc)
     out.append(('PiecewiseCovEffect', cov, {'T': T, 'P': P, 'x': x}, 0, False))
     refs = ctor('pmutt.empirical.references.References', offset=DictV({'A': D.sym('offA'), 'B': D.sym('offB')}),
                 T_ref=p('T_ref'))
@@ -717,6 +734,15 @@ def aggregation(run, repo):
         run.check(ok, 'AGG.kwargs', 'StatMech.' + mname, 'species-block',
                   'conditions addressed to this species (sp_kwargs) do not reach its modes, or another '
                   'species\' block does: %s' % show(got, 300), owner.module, fn)
+        n += 1
+        # ... and the same species asked again with another block (nothing is remembered under a key without it)
+        P4 = D.sym('P4')
+        got = I.call_method(sp, mname, [], {'T': T, 'P': P, 'sp_kwargs': DictV({'P': P4}), 'verbose': True})
+        exp = [val(I, modes[a], mname, {'T': T, 'P': P4}) for a in MODE_ATTRS]
+        ok = isinstance(got, ListV) and all(same(a, b) for a, b in zip(got.items[:5], exp))
+        run.check(ok, 'AGG.kwargs', 'StatMech.' + mname, 'species-block, asked again with another block',
+                  'the same species asked a second time with other conditions in its block (sp_kwargs) must report '
+                  'the modes at THOSE conditions: %s' % show(got, 300), owner.module, fn)
         n += 1
         # an option of the modes (include_ZPE: the harmonic partition function with or without the zero-point
         # factor) given to the species reaches every mode that expects it, with the value given
@@ -1525,6 +1551,13 @@ def composition_from_atoms(run, repo):
         raise AnchorError('pmutt.constants.atomic_weight (a dict literal) not found')
     run.table('constants.atomic_weight')
     aw = {fold_value(cm, k): fold_num(cm, v).v for k, v in zip(node.keys, node.values)}
+
+    def aw_of(sym):
+        # the table may be keyed by element symbol, by atomic number or (as bundled) by both
+        for k_ in (sym, Z_OF[sym]):
+            if k_ in aw:
+                return aw[k_]
+        raise AnchorError('pmutt.constants.atomic_weight: the literal has no entry for %s (by symbol or number)' % sym)
     ci_t = repo.cls(SM + '.trans.FreeTrans')
     ci_s = repo.cls(SM + '.StatMech')
     o_t, f_t = repo.find_method(ci_t, '__init__')
@@ -1537,7 +1570,7 @@ def composition_from_atoms(run, repo):
             counts = {}
             for x in symbols:
                 counts[x] = counts.get(x, 0) + 1
-            want_m = C(sum(Fr(aw[x]) for x in symbols))
+            want_m = C(sum(Fr(aw_of(x)) for x in symbols))
             key = '%s listed %s%s' % (mol, ''.join(symbols), '' if k_order == 0 else ' (permuted)')
 
             def mass_ok(got):
@@ -1771,7 +1804,17 @@ def check(run, repo):
         'them in the thorough tier); a second object of every closed-form class, a second T, P and the first object '
         'again in the same interpreter must report what a fresh interpreter reports (EFFECT.state: memo tables, '
         'class-level containers); molar mass and composition taken from a structure for molecules of the G2 set with '
-        'the atoms listed in the bundled and in permuted orders against the folded atomic-weight table.')
+        'the atoms listed in the bundled and in permuted orders against the folded atomic-weight table. '
+        'Round 3: species assembled from objects of the REAL mode classes (ideal gas nonlinear / linear with '
+        'quasi-RRHO / atom, Einstein and Debye crystals, a constant mode) and from presets[idealgas]: every verbose '
+        'entry is what that mode reports when asked directly with the same T, P, include_ZPE (AGG.real-modes, '
+        'AGG.preset - the package\'s own argument routing meets the signatures of the real getters), the species '
+        'itself obeys dS/dlnP, H-U, Cp-Cv, G=H-S, F=U-S, is asked at a second P, a second T and next to a second '
+        'species; the wavenumber witnesses have the magnitudes of the property (imaginary -30 and -1500, real 12 '
+        'to 3900, substitute 50 1/cm) and every constant the filter compares a wavenumber with is probed on either '
+        'side; the one-mode references are built where no such cut-off reaches them; textbook partition functions '
+        'of the Einstein and Debye crystals; a mode without the quantity in every slot; the point-group labels are '
+        'the rule\'s own list (the docstring is not parsed).')
     run.assumptions = ['identities over the reals; pmutt.constants modelled as R=kb*Na, kb[u]=kb*U[u], h[u]=h*U[u], '
                        'convert_unit=U[final]/U[initial] (verified on the literal tables by C12)',
                        '_force_pass_arguments/_pass_expected_arguments modelled by their documented contract']
